@@ -442,6 +442,40 @@ def r_shallow(root):
                     out.append(Finding(p, p + ".S", rel, q, "copy.copy(%s)" % txt[:80], "a parsing expression is shallow-copied: copy and original share one _result_cache (and one nodes list); with memoization=True a result cached through one of them is returned for the other, or survives the per-parse cache reset", witness="memoization=True and two uses of the copied rule at the same input offset / two metamodels parsing in turn"))
     if inst < 1: raise AnalysisError("shallow-copy rule: the parser blueprint copy in TextXModelParser.clone was not found")
     return inst, out
+# ---------------------------------------------------------------------------------------------------------------- .P
+def r_postponed(root):
+    """navigation through an attribute named at run time (RREL steps, dotted model paths): the attribute may be a
+    reference that is not resolved yet.  Every use of the value read by getattr(obj, <name>) lies where
+    needs_to_be_resolved(obj, <name>) is known to be false (the true branch answers Postponed)."""
+    out = []; inst = 0
+    for rel in (RREL, TOOLS):
+        t = load(root, rel)
+        for fn in [n for n in ast.walk(t) if isinstance(n, ast.FunctionDef)]:
+            gets = [c for c in calls(fn, own=True) if callee_name(c) == "getattr" and isinstance(c.func, ast.Name) and len(c.args) == 2 and not isinstance(c.args[1], ast.Constant)]
+            if not gets or fn.name.startswith("__"): continue          # attribute forwarding of proxies (__getattr__) is not navigation
+            fi = sem.info(fn); q = qualname(fn)
+            for gcall in gets:
+                want = "needs_to_be_resolved(%s, %s)" % (fi.text(gcall.args[0], at=gcall), fi.text(gcall.args[1], at=gcall))
+                par = getattr(gcall, "_parent", None)
+                uses = []
+                if isinstance(par, ast.Assign) and len(par.targets) == 1 and isinstance(par.targets[0], ast.Name):
+                    v = par.targets[0].id; dnode = fi.node_of(par)
+                    for x in own_nodes(fn):
+                        if isinstance(x, ast.Name) and x.id == v and isinstance(x.ctx, ast.Load):
+                            n = fi.node_of(x)
+                            if n is not None and dnode is not None and dnode.id in fi.rd.defs_of(n, v): uses.append(x)
+                    for lam in [x for x in ast.walk(fn) if isinstance(x, ast.Lambda)]:
+                        pass
+                else: uses = [gcall]
+                inst += 1
+                bad = [u for u in uses if not fi.holds(u, want, False)]
+                # a use that only re-wraps the value (`if not isinstance(v, list): v = [v]`) re-defines v: later uses are found through that definition
+                for p in (("C11", "C09") if rel == RREL else ("C09",)):
+                    ob(p, p + ".P", rel, q, "%s: %d uses under not %s" % (" ".join(ast.unparse(gcall).split()), len(uses), want), not bad)
+                    for u in bad[:1]:
+                        out.append(Finding(p, p + ".P", rel, q, " ".join(ast.unparse(stmt_of(u)).split())[:100], "the value of %s is used where %s is not known to be false: a reference attribute that is still unresolved (declared later in the text, or postponed) is navigated as if it were final, so the lookup answers 'no match' / a wrong object instead of Postponed" % (ast.unparse(gcall), want), witness="RREL / dotted path through a reference attribute that is written after the reference using it"))
+    if inst < 2: raise AnalysisError("postponed-navigation rule: %d dynamic attribute reads found (RRELNavigation.apply.lookup and resolve_model_path expected)" % inst)
+    return inst, out
 def families():
     """clause family letter -> properties it can attribute findings to"""
     allp = set()
@@ -450,4 +484,4 @@ def families():
     for _f, _pre, ps in MEMO_ATTRIB: mp |= set(ps)
     op = set()
     for ps in OPT_PROPS.values(): op |= set(ps)
-    return {"T": allp, "M": mp, "O": op, "S": {"C19", "C16"}}
+    return {"T": allp, "M": mp, "O": op, "S": {"C19", "C16"}, "P": {"C09", "C11"}}
